@@ -530,7 +530,7 @@ Definition raw_entry (lock : label) (p : pin) : entry :=
           (p_version p)
           (sort_strs (via_keys p))
           (match p_link p with
-           | Some (LWheel d f) => Some (l_repo lock ++ "//" ++ l_pkg lock ++ ":" ++ d ++ "/" ++ f)
+           | Some (LWheel d f) => wheel_label lock d f
            | _ => None end).
 
 Lemma last_opt_snoc {A} (l : list A) x : last_opt (l ++ [x]) = Some x.
@@ -555,27 +555,22 @@ Qed.
 Lemma plain_version_edge c : plain c && not_char "\" c = true -> negb (mem_ascii c c19_version_strip) = true.
 Proof. apply implb_true. revert c. by_ascii. Qed.
 
-Definition link_ok (fls : list string) (l : link) : bool :=
-  match l with
-  | LWheel d f =>
-      match fls with [d'] => String.eqb d d' | _ => false end
-      && String.eqb (urljoin_rel d (wheel_path d f)) (wheel_path d f)
-      && negb (startswith_any (wheel_path d f) c19_up_prefixes)
-  | LUrl _ => true
-  end.
-
-Lemma wheel_ok_link fls p l : p_link p = Some l -> wheel_ok fls p = link_ok fls l.
-Proof. intros E. unfold wheel_ok. rewrite E. destruct l; reflexivity. Qed.
-
 Lemma nohash_plain_url_edge c : not_char "#" c && plain c = true -> url_edge c = true.
 Proof. apply implb_true. revert c. by_ascii. Qed.
 
+Lemma mem_str_In x l : mem_str x l = true <-> In x l.
+Proof.
+  unfold mem_str. rewrite existsb_exists. split.
+  - intros (y & Hy & E). apply String.eqb_eq in E. subst. exact Hy.
+  - intros H. exists x. split; [exact H|apply String.eqb_refl].
+Qed.
+
 Lemma link_text_facts fls l :
-  forallb wf_fl_dir fls = true -> wf_link fls l = true -> link_ok fls l = true ->
+  forallb wf_fl_dir fls = true -> wf_link fls l = true ->
   first_char url_edge (link_text l) = true /\ last_char url_edge (link_text l) = true
   /\ no_lb (link_text l) = true.
 Proof.
-  intros Hfl Hwf Hok. destruct l as [u|d f]; cbn [link_text wf_link link_ok] in *.
+  intros Hfl Hwf. destruct l as [u|d f]; cbn [link_text wf_link] in *.
   - apply andb_true_iff in Hwf as [Hwf H3]. apply andb_true_iff in Hwf as [H1 H2].
     unfold c19_url_schemes in H1. cbn [startswith_any existsb] in H1. rewrite orb_false_r in H1.
     assert (first_char url_edge u = true) as Hf.
@@ -585,11 +580,8 @@ Proof.
     + exact Hf.
     + eapply last_char_impl; [apply nohash_plain_url_edge|]. apply last_char_and; [exact H3|exact H2].
     + eapply all_chars_impl; [apply plain_no_lb|exact H2].
-  - apply andb_true_iff in Hok as [Hok _]. apply andb_true_iff in Hok as [Hd Hj].
-    apply String.eqb_eq in Hj. unfold wheel_path in *. rewrite Hj.
-    destruct fls as [|d' [|d'' fls]]; try discriminate. apply String.eqb_eq in Hd. subst d'.
-    cbn [forallb] in Hfl. rewrite andb_true_r in Hfl.
-    repeat (apply andb_true_iff in Hwf as [Hwf ?]).
+  - do 5 (apply andb_true_iff in Hwf as [Hwf ?]).
+    apply mem_str_In in Hwf. rewrite forallb_forall in Hfl. specialize (Hfl d Hwf).
     unfold wf_fl_dir in Hfl. apply andb_true_iff in Hfl as [Hfl D3]. apply andb_true_iff in Hfl as [D1 D2].
     repeat split.
     + apply first_char_app. destruct d as [|c d]; [discriminate|]. cbn [first_char all_chars] in *.
@@ -607,18 +599,30 @@ Proof. unfold url_edge. intros H. apply andb_true_iff in H. tauto. Qed.
 Lemma url_edge_nonspace c : url_edge c = true -> nonspace c = true.
 Proof. unfold url_edge. intros H. apply andb_true_iff in H. tauto. Qed.
 
+(* the relative-parent branch never runs out of path segments on dir/file *)
+Lemma relative_parent_label_ok d f lock :
+  exists w, relative_parent_label (d ++ "/" ++ f) lock = Ok w.
+Proof.
+  unfold relative_parent_label.
+  destruct (partition_str c19_label_sep (label_str lock)) as [[repository b] path].
+  change (d ++ "/" ++ f) with (d ++ String c19_url_split f).
+  rewrite split_char_app_gen.
+  destruct (rev_two (split_char c19_url_split d) (split_char c19_url_split f)
+                    (split_char_nonempty _ _) (split_char_nonempty _ _)) as (a & b' & t & ->).
+  eexists. reflexivity.
+Qed.
+
 Lemma parse_block fls p lock :
-  forallb wf_fl_dir fls = true -> wf_pin fls p = true -> wheel_ok fls p = true ->
+  forallb wf_fl_dir fls = true -> wf_pin fls p = true ->
   parse_constraint (sblock p) lock fls = Ok (raw_entry lock p).
 Proof.
-  intros Hfl Hwf Hok. pose proof Hwf as Hwf0. unfold wf_pin in Hwf.
+  intros Hfl Hwf. pose proof Hwf as Hwf0. unfold wf_pin in Hwf.
   apply andb_true_iff in Hwf as [Hwf Hlink]. apply andb_true_iff in Hwf as [Hwf Hvia].
   apply andb_true_iff in Hwf as [Hwf Hvne]. apply andb_true_iff in Hwf as [Hwf Hhash].
   apply andb_true_iff in Hwf as [Hwf Hver]. apply andb_true_iff in Hwf as [Hname Hvne'].
   destruct (p_hash p) as [h|] eqn:Eh; [|discriminate].
   destruct (p_link p) as [l|] eqn:El; [|discriminate].
-  rewrite (wheel_ok_link fls p l El) in Hok.
-  destruct (link_text_facts fls l Hfl Hlink Hok) as (LF1 & LF2 & _).
+  destruct (link_text_facts fls l Hfl Hlink) as (LF1 & LF2 & _).
   apply andb_true_iff in Hhash as [Hh1 Hh2].
   unfold pep508_name in Hname. apply andb_true_iff in Hname as [Hn1 Hn2].
   assert (p_via p <> []) as Hvs by (destruct (p_via p); [discriminate|congruence]).
@@ -654,16 +658,22 @@ Proof.
   { unfold su. rewrite <- (app_nil_r_s (link_text l)) at 1. apply strip_chars_both; try reflexivity.
     - eapply first_char_impl; [apply url_edge_nomem|exact LF1].
     - eapply last_char_impl; [apply url_edge_nomem|exact LF2]. }
-  destruct l as [u|d f]; cbn [link_text wf_link link_ok] in *.
+  destruct l as [u|d f]; cbn [link_text wf_link] in *.
   - apply andb_true_iff in Hlink as [Hlink _]. apply andb_true_iff in Hlink as [Hs _].
     rewrite Hs. rewrite <- Hh1. reflexivity.
-  - apply andb_true_iff in Hok as [Hok Hup]. apply andb_true_iff in Hok as [Hd Hj].
-    apply String.eqb_eq in Hj. unfold wheel_path in *. rewrite Hj.
-    destruct fls as [|d' [|d'' fls]]; try discriminate. apply String.eqb_eq in Hd. subst d'.
-    repeat (apply andb_true_iff in Hlink as [Hlink ?]).
-    match goal with H : negb (startswith_any _ c19_url_schemes) = true |- _ => apply negb_true_iff in H; rewrite H end.
-    cbn [startswith_star]. rewrite prefixb_app.
-    apply negb_true_iff in Hup. rewrite Hup. rewrite <- Hh1. reflexivity.
+  - do 5 (apply andb_true_iff in Hlink as [Hlink ?]).
+    match goal with H : negb (startswith_any _ c19_url_schemes) = true |- _ =>
+      apply negb_true_iff in H; unfold wheel_path in H; rewrite H end.
+    pose proof Hlink as Hmem. apply mem_str_In in Hmem.
+    destruct fls as [|d0 fls0]; [destruct Hmem|]. set (fls := d0 :: fls0) in *.
+    assert (startswith_tuple (d ++ "/" ++ f) fls = true) as ->.
+    { unfold startswith_tuple. apply existsb_exists. exists d. split; [exact Hmem|apply prefixb_app]. }
+    unfold wheel_label. change (startswith_any (d ++ "/" ++ f) [".."; "./../"])
+      with (startswith_any (d ++ "/" ++ f) c19_up_prefixes).
+    rewrite <- Hh1.
+    destruct (startswith_any (d ++ "/" ++ f) c19_up_prefixes).
+    + destruct (relative_parent_label_ok d f lock) as [w ->]. reflexivity.
+    + reflexivity.
 Qed.
 
 (* ================================================================ names: sanitize vs normalize *)
@@ -744,21 +754,14 @@ Proof.
 Qed.
 
 Lemma flush_all_blocks fls ps lock ents :
-  forallb wf_fl_dir fls = true -> forallb (wf_pin fls) ps = true -> forallb (wheel_ok fls) ps = true ->
+  forallb wf_fl_dir fls = true -> forallb (wf_pin fls) ps = true ->
   flush_all (map sblock ps) lock fls ents = Ok (ents ++ map (raw_entry lock) ps)%list.
 Proof.
-  intros Hfl. revert ents. induction ps as [|p ps IH]; intros ents Hwf Hok.
+  intros Hfl. revert ents. induction ps as [|p ps IH]; intros ents Hwf.
   - cbn. rewrite app_nil_r. reflexivity.
-  - cbn [forallb] in Hwf, Hok. apply andb_true_iff in Hwf as [Hp Hps]. apply andb_true_iff in Hok as [Op Ops].
-    cbn [map flush_all]. rewrite (flush_sblock p lock fls ents _ (parse_block fls p lock Hfl Hp Op)).
-    rewrite (IH _ Hps Ops). rewrite <- app_assoc. reflexivity.
-Qed.
-
-Lemma mem_str_In x l : mem_str x l = true <-> In x l.
-Proof.
-  unfold mem_str. rewrite existsb_exists. split.
-  - intros (y & Hy & E). apply String.eqb_eq in E. subst. exact Hy.
-  - intros H. exists x. split; [exact H|apply String.eqb_refl].
+  - cbn [forallb] in Hwf. apply andb_true_iff in Hwf as [Hp Hps].
+    cbn [map flush_all]. rewrite (flush_sblock p lock fls ents _ (parse_block fls p lock Hfl Hp)).
+    rewrite (IH _ Hps). rewrite <- app_assoc. reflexivity.
 Qed.
 
 Lemma nodup_b_NoDup l : nodup_b l = true -> NoDup l.
@@ -927,17 +930,16 @@ Lemma no_lb_app a b : no_lb (a ++ b) = no_lb a && no_lb b.
 Proof. apply all_chars_app. Qed.
 
 Lemma pin_lines_no_lb fls p :
-  forallb wf_fl_dir fls = true -> wf_pin fls p = true -> wheel_ok fls p = true ->
+  forallb wf_fl_dir fls = true -> wf_pin fls p = true ->
   forallb no_lb (pin_lines p) = true.
 Proof.
-  intros Hfl Hwf Hok. unfold wf_pin in Hwf.
+  intros Hfl Hwf. unfold wf_pin in Hwf.
   apply andb_true_iff in Hwf as [Hwf Hlink]. apply andb_true_iff in Hwf as [Hwf Hvia].
   apply andb_true_iff in Hwf as [Hwf Hvne]. apply andb_true_iff in Hwf as [Hwf Hhash].
   apply andb_true_iff in Hwf as [Hwf Hver]. apply andb_true_iff in Hwf as [Hname Hvne'].
   destruct (p_hash p) as [h|] eqn:Eh; [|discriminate].
   destruct (p_link p) as [l|] eqn:El; [|discriminate].
-  rewrite (wheel_ok_link fls p l El) in Hok.
-  destruct (link_text_facts fls l Hfl Hlink Hok) as (_ & _ & LF3).
+  destruct (link_text_facts fls l Hfl Hlink) as (_ & _ & LF3).
   apply andb_true_iff in Hhash as [_ Hh2].
   unfold pep508_name in Hname. apply andb_true_iff in Hname as [_ Hn2].
   unfold pin_lines, pin_head_lines, pin_link_lines. rewrite Eh, El.
@@ -963,9 +965,9 @@ Proof.
 Qed.
 
 Lemma view_lines_no_lb v :
-  wf_view v = true -> fl_guard v = true -> forallb no_lb (view_lines v) = true.
+  wf_view v = true -> forallb no_lb (view_lines v) = true.
 Proof.
-  unfold wf_view, fl_guard. intros Hwf Hg.
+  unfold wf_view. intros Hwf.
   apply andb_true_iff in Hwf as [Hwf _]. apply andb_true_iff in Hwf as [Hwf Hpins].
   apply andb_true_iff in Hwf as [Hwf Hfl]. apply andb_true_iff in Hwf as [Hhead Hidx].
   unfold view_lines. rewrite !forallb_app. apply andb_true_iff. split; [|apply andb_true_iff; split].
@@ -983,9 +985,9 @@ Proof.
         cbn [forallb map] in *. apply andb_true_iff in Hfl as [Hd Hl]. rewrite (IH Hl), andb_true_r.
         unfold fl_line. rewrite no_lb_app. destruct (fl_dir_facts d Hd) as (_ & _ & _ & _ & F5). rewrite F5. reflexivity. }
     unfold directive_lines. destruct (v_indexes v), (v_find_links v); exact K.
-  - revert Hpins Hg. generalize (v_pins v). induction l as [|p ps IH]; [reflexivity|].
-    cbn [forallb flat_map]. intros H1 H2. apply andb_true_iff in H1 as [Hp Hps]. apply andb_true_iff in H2 as [Op Ops].
-    rewrite forallb_app, (pin_lines_no_lb _ _ Hfl Hp Op), (IH Hps Ops). reflexivity.
+  - revert Hpins. generalize (v_pins v). induction l as [|p ps IH]; [reflexivity|].
+    cbn [forallb flat_map]. intros H1. apply andb_true_iff in H1 as [Hp Hps].
+    rewrite forallb_app, (pin_lines_no_lb _ _ Hfl Hp), (IH Hps). reflexivity.
 Qed.
 
 Lemma pin_keys_nodup fls ps :
@@ -1000,13 +1002,13 @@ Proof.
   apply andb_true_iff in Hwf. tauto.
 Qed.
 
-Theorem roundtrip_partial lock c v :
-  wf_view v = true -> fl_guard v = true ->
+Theorem roundtrip lock c v :
+  wf_view v = true ->
   parse_lockfile (write_bazel v) [] lock c = Ok (lock_view lock c v).
 Proof.
-  intros Hwf Hg. unfold parse_lockfile, write_bazel.
+  intros Hwf. unfold parse_lockfile, write_bazel.
   rewrite splitlines_unlines by (apply view_lines_no_lb; assumption).
-  unfold wf_view in Hwf. unfold fl_guard in Hg.
+  unfold wf_view in Hwf.
   apply andb_true_iff in Hwf as [Hwf Hnd]. apply andb_true_iff in Hwf as [Hwf Hpins].
   apply andb_true_iff in Hwf as [Hwf Hfl]. apply andb_true_iff in Hwf as [Hhead Hidx].
   unfold view_lines.
@@ -1016,12 +1018,11 @@ Proof.
       apply andb_true_iff in Hl as [_ Hl]. rewrite Hl. apply IH, Hls. }
   rewrite loop_directives by assumption.
   rewrite (loop_blocks (v_find_links v)); [|exact Hpins|].
-  2:{ intros p l Hin El. rewrite forallb_forall in Hpins, Hg.
-      pose proof (Hpins p Hin) as Hp. pose proof (Hg p Hin) as Op.
-      rewrite (wheel_ok_link _ p l El) in Op.
+  2:{ intros p l Hin El. rewrite forallb_forall in Hpins.
+      pose proof (Hpins p Hin) as Hp.
       assert (wf_link (v_find_links v) l = true) as Hl.
       { unfold wf_pin in Hp. apply andb_true_iff in Hp as [_ Hp]. rewrite El in Hp. exact Hp. }
-      destruct (link_text_facts _ l Hfl Hl Op) as (_ & LF2 & _).
+      destruct (link_text_facts _ l Hfl Hl) as (_ & LF2 & _).
       eapply last_char_impl; [apply url_edge_nonspace|exact LF2]. }
   cbn [flush_all flush]. rewrite flush_all_blocks by assumption. cbn [List.app].
   rewrite finalize_raw; [reflexivity|]. apply (pin_keys_nodup (v_find_links v)); assumption.
@@ -1029,18 +1030,16 @@ Qed.
 
 (* ================================================================ statements, corollaries, witnesses *)
 
-(* The property at full strength: no guard on where the wheels come from. *)
-Definition roundtrip_full_statement : Prop :=
-  forall lock c v, wf_view v = true ->
-  parse_lockfile (write_bazel v) [] lock c = Ok (lock_view lock c v).
-Definition never_rejected_full_statement : Prop :=
-  forall lock c v, wf_view v = true -> exists d, parse_lockfile (write_bazel v) [] lock c = Ok d.
-(* roundtrip_partial proves it under fl_guard; the witnesses below show the guard cannot be
-   dropped (and neither can the sha256 condition inside wf_view). *)
+(* `roundtrip` is the property at full strength: every well-formed view, any number of
+   find-links directories, nested or upward ones included (after the repair of
+   url.startswith( *wheel_dirs) in the loader and of the urljoin of scheme-less links in the
+   writer).  What remains outside is wf_view's sha256 condition (missing_sha256_refuted) and,
+   for upward directories with more than one remaining segment, the *meaning* of the label
+   the loader computes (deep_parent_label_refuted). *)
 
-Theorem never_rejected_partial lock c v :
-  wf_view v = true -> fl_guard v = true -> exists d, parse_lockfile (write_bazel v) [] lock c = Ok d.
-Proof. intros H1 H2. eexists. apply roundtrip_partial; assumption. Qed.
+Theorem never_rejected lock c v :
+  wf_view v = true -> exists d, parse_lockfile (write_bazel v) [] lock c = Ok d.
+Proof. intros H1. eexists. apply roundtrip; assumption. Qed.
 
 (* the loader's keys are the compiler's keys (normalize_project_name), in the order written *)
 Theorem keys_are_compiler_keys lock c v :
@@ -1112,63 +1111,64 @@ Definition ex_view : view :=
             (Some (LUrl "file:///srv/wheels/baz_qux-2.0.tar.gz")) ].
 Definition ex_lock : label := mkLabel "@" "pkg" "requirements.txt".
 
-Example ex_view_in_guard : wf_view ex_view = true /\ fl_guard ex_view = true.
-Proof. split; vm_compute; reflexivity. Qed.
+Example ex_view_wf : wf_view ex_view = true.
+Proof. vm_compute; reflexivity. Qed.
 
 Example ex_view_roundtrip_nontrivial :
   exists d, parse_lockfile (write_bazel ex_view) [] ex_lock None = Ok d
             /\ map fst d = ["foo_bar"; "lone"; "baz_qux"]
             /\ map (fun ke => e_deps (snd ke)) d = [["baz_qux"; "lone"; "lone"]; []; ["lone"]].
-Proof. eexists. split; [apply roundtrip_partial; vm_compute; reflexivity|]. split; vm_compute; reflexivity. Qed.
+Proof. eexists. split; [apply roundtrip; vm_compute; reflexivity|]. split; vm_compute; reflexivity. Qed.
 
-(* ---- the guard cannot be dropped: machine-checked witnesses *)
+(* ---- the three layouts the loader used to reject are now read back (instances of `roundtrip`,
+        with the labels spelled out) *)
 
 Definition wit_pin (name dir : string) (via : list requirer) : pin :=
   mkPin name "1.0" (Some ex_sha) via (Some (LWheel dir (name ++ "-1.0-py3-none-any.whl"))).
+Definition whls (r : res dict) : option (list (option string)) :=
+  match r with Ok d => Some (map (fun ke => e_whl (snd ke)) d) | Err _ => None end.
 
-(* two --find-links directives: url.startswith( *wheel_dirs) gets a string as `start` *)
 Definition wit_two_find_links : view :=
   mkView [] [] ["w1"; "w2"]
     [wit_pin "foo" "w1" [mkRequirer "_main/pkg/requirements.in" ""]; wit_pin "lone" "w2" [mkRequirer "foo" ""]].
-
-Theorem two_find_links_refuted :
-  exists v, wf_view v = true /\ parse_lockfile (write_bazel v) [] ex_lock None = Err ErrStartswithArgs.
-Proof. exists wit_two_find_links. split; vm_compute; reflexivity. Qed.
-
-(* a find-links directory below the lock file's directory: urljoin("sub/wheels",
-   "sub/wheels/x.whl") = "sub/sub/wheels/x.whl", which no longer starts with the directory *)
 Definition wit_nested_find_links : view :=
   mkView [] [] ["sub/wheels"] [wit_pin "foo" "sub/wheels" [mkRequirer "_main/pkg/requirements.in" ""]].
-
-Theorem nested_find_links_refuted :
-  exists v, wf_view v = true /\ parse_lockfile (write_bazel v) [] ex_lock None = Err FailUrl.
-Proof. exists wit_nested_find_links. split; vm_compute; reflexivity. Qed.
-
-(* a find-links directory beside the lock file's directory: urljoin drops the leading ".." *)
 Definition wit_parent_find_links : view :=
   mkView [] [] ["../wheels"] [wit_pin "foo" "../wheels" [mkRequirer "_main/pkg/nested/requirements.in" ""]].
+Definition nested_lock : label := mkLabel "@" "pkg/nested" "requirements.txt".
 
-Theorem parent_find_links_refuted :
-  exists v, wf_view v = true /\ parse_lockfile (write_bazel v) [] ex_lock None = Err FailUrl.
-Proof. exists wit_parent_find_links. split; vm_compute; reflexivity. Qed.
+Example former_witnesses_roundtrip :
+  wf_view wit_two_find_links = true /\ wf_view wit_nested_find_links = true /\ wf_view wit_parent_find_links = true
+  /\ whls (parse_lockfile (write_bazel wit_two_find_links) [] ex_lock None)
+     = Some [Some "@//pkg:w1/foo-1.0-py3-none-any.whl"; Some "@//pkg:w2/lone-1.0-py3-none-any.whl"]
+  /\ whls (parse_lockfile (write_bazel wit_nested_find_links) [] ex_lock None)
+     = Some [Some "@//pkg:sub/wheels/foo-1.0-py3-none-any.whl"]
+  /\ whls (parse_lockfile (write_bazel wit_parent_find_links) [] nested_lock None)
+     = Some [Some "@//pkg:wheels/foo-1.0-py3-none-any.whl"].
+Proof. repeat split; vm_compute; reflexivity. Qed.
 
-Theorem roundtrip_full_statement_refuted : ~ roundtrip_full_statement.
-Proof.
-  intros H. specialize (H ex_lock None wit_two_find_links eq_refl).
-  assert (parse_lockfile (write_bazel wit_two_find_links) [] ex_lock None = Err ErrStartswithArgs) as K
-      by (vm_compute; reflexivity).
-  rewrite K in H. discriminate.
-Qed.
+(* for "../"^k name the loader's rule gives the right label: k package segments dropped *)
+Example parent_dir_label_examples :
+  wheel_label (mkLabel "@" "a/b/c" "lock.txt") "../wheels" "x.whl" = Some "@//a/b:wheels/x.whl"
+  /\ wheel_label (mkLabel "@@r~" "a/b/c" "lock.txt") "../../w" "x.whl" = Some "@@r~//a:w/x.whl"
+  /\ wheel_label (mkLabel "@" "pkg" "lock.txt") "../w" "x.whl" = Some "@//:w/x.whl"
+  /\ wheel_label (mkLabel "@" "pkg" "lock.txt") "w/linux" "x.whl" = Some "@//pkg:w/linux/x.whl".
+Proof. repeat split; vm_compute; reflexivity. Qed.
 
-Theorem never_rejected_full_statement_refuted : ~ never_rejected_full_statement.
-Proof.
-  intros H. destruct (H ex_lock None wit_nested_find_links eq_refl) as [d Hd].
-  assert (parse_lockfile (write_bazel wit_nested_find_links) [] ex_lock None = Err FailUrl) as K
-      by (vm_compute; reflexivity).
-  rewrite K in Hd. discriminate.
-Qed.
+(* ---- what is still refuted *)
 
-(* wf_view's sha256 condition is necessary too: an index that publishes md5 fragments (or
+(* an upward directory with more than one remaining segment: the file is a/w/x/foo-1.0-...whl
+   (lock in //a/b/c, `--find-links ../../w/x`), the label names a/x/foo-1.0-...whl *)
+Definition wit_deep_parent : view :=
+  mkView [] [] ["../../w/x"] [wit_pin "foo" "../../w/x" [mkRequirer "_main/a/b/c/requirements.in" ""]].
+
+Theorem deep_parent_label_refuted :
+  exists v, wf_view v = true
+            /\ whls (parse_lockfile (write_bazel v) [] (mkLabel "@" "a/b/c" "requirements.txt") None)
+               = Some [Some "@//a:x/foo-1.0-py3-none-any.whl"].
+Proof. exists wit_deep_parent. split; vm_compute; reflexivity. Qed.
+
+(* wf_view's sha256 condition is necessary: an index that publishes md5 fragments (or
    none) makes the writer emit "--hash=md5:..." (or no hash line) and the loader fails *)
 Definition wit_md5 : view :=
   mkView [] [] []
@@ -1176,124 +1176,8 @@ Definition wit_md5 : view :=
            (Some (LUrl "https://files.pythonhosted.org/packages/ab/foo-1.0.tar.gz#md5=d225234993de353946e76c4e0922112e"))].
 
 Theorem missing_sha256_refuted :
-  exists v, fl_guard v = true /\ parse_lockfile (write_bazel v) [] ex_lock None = Err FailHash.
-Proof. exists wit_md5. split; vm_compute; reflexivity. Qed.
-
-(* ================================================================ the guard holds for every plain directory name *)
-
-Lemma split_char_acc_spec sep s acc :
-  split_char_acc sep s acc =
-  match split_char_acc sep s "" with
-  | x :: r => (rev_str acc ++ x) :: r
-  | [] => []
-  end.
-Proof.
-  revert acc. induction s as [|c s IH]; intros acc; cbn [split_char_acc].
-  - change (rev_str "") with "". rewrite app_nil_r_s. reflexivity.
-  - destruct (Ascii.eqb c sep).
-    + change (rev_str "") with "". rewrite app_nil_r_s. reflexivity.
-    + rewrite IH. rewrite (IH (String c "")). destruct (split_char_acc sep s "") as [|x r]; [reflexivity|].
-      rewrite rev_str_cons, app_assoc_s. reflexivity.
-Qed.
-
-Lemma split_char_nosep sep s : all_chars (not_char sep) s = true -> split_char sep s = [s].
-Proof.
-  unfold split_char. induction s as [|c s IH]; intros H; [reflexivity|].
-  cbn [all_chars] in H. apply andb_true_iff in H as [Hc Hs]. unfold not_char in Hc. apply negb_true_iff in Hc.
-  cbn [split_char_acc]. rewrite Hc, split_char_acc_spec, (IH Hs). reflexivity.
-Qed.
-
-Lemma split_char_app sep a b :
-  all_chars (not_char sep) a = true -> split_char sep (a ++ String sep b) = a :: split_char sep b.
-Proof.
-  unfold split_char. induction a as [|c a IH]; intros H.
-  - cbn [append split_char_acc]. rewrite Ascii.eqb_refl. reflexivity.
-  - cbn [all_chars] in H. apply andb_true_iff in H as [Hc Ha]. unfold not_char in Hc. apply negb_true_iff in Hc.
-    cbn [append split_char_acc]. rewrite Hc, split_char_acc_spec, (IH Ha). reflexivity.
-Qed.
-
-Lemma fname_not_slash c : fname_char c = true -> not_char "/" c = true.
-Proof. apply implb_true. revert c. by_ascii. Qed.
-
-Theorem simple_dir_in_guard d f :
-  first_char (fun _ => true) d = true -> simple_dir d = true ->
-  first_char (fun _ => true) f = true -> all_chars fname_char f = true ->
-  String.eqb f "." = false -> String.eqb f ".." = false ->
-  urljoin_rel d (wheel_path d f) = wheel_path d f
-  /\ startswith_any (wheel_path d f) c19_up_prefixes = false.
-Proof.
-  intros Hd Hs Hf Hfc Hf1 Hf2. unfold simple_dir in Hs.
-  apply andb_true_iff in Hs as [Hs Hdd]. apply andb_true_iff in Hs as [Hdc Hdot].
-  apply negb_true_iff in Hdd, Hdot.
-  assert (all_chars (not_char "/") d = true) as Hns by (eapply all_chars_impl; [apply fname_not_slash|exact Hdc]).
-  assert (all_chars (not_char "/") f = true) as Hnf by (eapply all_chars_impl; [apply fname_not_slash|exact Hfc]).
-  destruct d as [|c1 d']; [discriminate|]. destruct f as [|g1 f']; [discriminate|].
-  assert (String.eqb (String c1 d') ".." = false) as Hdd2.
-  { destruct (String.eqb_spec (String c1 d') "..") as [E|]; [|reflexivity]. rewrite E in Hdd. discriminate. }
-  split.
-  - unfold urljoin_rel, wheel_path. cbn [is_empty append].
-    change (String c1 (d' ++ "/" ++ String g1 f')) with (String c1 d' ++ String "/" (String g1 f')).
-    rewrite (split_char_nosep "/" (String c1 d') Hns). cbn [last_opt removelast].
-    assert (prefixb "/" (String c1 (d' ++ String "/" (String g1 f'))) = false) as ->.
-    { cbn [prefixb]. cbn [all_chars] in Hns. apply andb_true_iff in Hns as [Hc _].
-      unfold not_char in Hc. apply negb_true_iff in Hc. rewrite Ascii.eqb_sym, Hc. reflexivity. }
-    change (String c1 (d' ++ String "/" (String g1 f'))) with (String c1 d' ++ String "/" (String g1 f')).
-    rewrite (split_char_app "/" _ _ Hns), (split_char_nosep "/" _ Hnf).
-    cbn [List.app squeeze_middle last_opt removelast filter resolve_dots fold_left].
-    rewrite Hdd2, Hdot, Hf1, Hf2. cbn [List.app orb join is_empty append]. reflexivity.
-  - unfold wheel_path, c19_up_prefixes. cbn [startswith_any existsb]. rewrite orb_false_r.
-    cbn [all_chars] in Hdc. apply andb_true_iff in Hdc as [_ Hd'].
-    destruct d' as [|c2 d''].
-    + (* one character: it is not "." *)
-      assert (Ascii.eqb "." c1 = false) as E.
-      { destruct (Ascii.eqb_spec "." c1) as [<-|]; [discriminate Hdot|reflexivity]. }
-      cbn [append prefixb]. rewrite E. reflexivity.
-    + cbn [append prefixb] in *. cbn [all_chars] in Hd'. apply andb_true_iff in Hd' as [Hc2 _].
-      pose proof (fname_not_slash c2 Hc2) as Hsl. unfold not_char in Hsl. apply negb_true_iff in Hsl.
-      rewrite (Ascii.eqb_sym "/" c2), Hsl. rewrite andb_false_r, orb_false_r.
-      rewrite ?andb_true_r in *. exact Hdd.
-Qed.
-
-Example simple_dir_examples :
-  simple_dir "wheeldir" = true /\ simple_dir ".hidden" = true /\ simple_dir "w.d-1" = true
-  /\ simple_dir "sub/wheels" = false /\ simple_dir "../wheels" = false /\ simple_dir "." = false.
-Proof. repeat split; vm_compute; reflexivity. Qed.
-
-(* the readable guard: no wheel pins, or exactly one find-links directory with a plain name *)
-Definition simple_guard (v : view) : bool :=
-  negb (existsb is_wheel_pin (v_pins v))
-  || match v_find_links v with [d] => simple_dir d | _ => false end.
-
-Lemma simple_guard_fl_guard v : wf_view v = true -> simple_guard v = true -> fl_guard v = true.
-Proof.
-  unfold wf_view, simple_guard, fl_guard. intros Hwf Hg.
-  apply andb_true_iff in Hwf as [Hwf _]. apply andb_true_iff in Hwf as [Hwf Hpins].
-  apply andb_true_iff in Hwf as [_ Hfl].
-  apply forallb_forall. intros p Hin. rewrite forallb_forall in Hpins. specialize (Hpins p Hin).
-  unfold wheel_ok. destruct (p_link p) as [[u|d f]|] eqn:El; try reflexivity.
-  assert (existsb is_wheel_pin (v_pins v) = true) as Hex.
-  { apply existsb_exists. exists p. split; [exact Hin|]. unfold is_wheel_pin. rewrite El. reflexivity. }
-  rewrite Hex in Hg. cbn [negb orb] in Hg.
-  destruct (v_find_links v) as [|d0 [|d1 fls]] eqn:Efl; try discriminate.
-  rewrite ?Efl in *.
-  unfold wf_pin in Hpins. apply andb_true_iff in Hpins as [_ Hl]. rewrite El in Hl. cbn [wf_link] in Hl.
-  repeat (apply andb_true_iff in Hl as [Hl ?]).
-  apply String.eqb_eq in Hl. subst d0.
-  cbn [forallb] in Hfl. rewrite andb_true_r in Hfl.
-  assert (first_char (fun _ => true) d = true) as Hd.
-  { unfold wf_fl_dir in Hfl. destruct d; [discriminate|reflexivity]. }
-  repeat match goal with H : negb _ = true |- _ => apply negb_true_iff in H end.
-  destruct (simple_dir_in_guard d f) as [E1 E2]; try assumption.
-  rewrite String.eqb_refl, E1, String.eqb_refl, E2. reflexivity.
-Qed.
-
-Theorem roundtrip_simple_partial lock c v :
-  wf_view v = true -> simple_guard v = true ->
-  parse_lockfile (write_bazel v) [] lock c = Ok (lock_view lock c v).
-Proof. intros H1 H2. apply roundtrip_partial; [exact H1|apply simple_guard_fl_guard; assumption]. Qed.
-
-Example ex_view_simple_guard : simple_guard ex_view = true.
-Proof. vm_compute. reflexivity. Qed.
+  exists v, parse_lockfile (write_bazel v) [] ex_lock None = Err FailHash.
+Proof. exists wit_md5. vm_compute; reflexivity. Qed.
 
 (* ================================================================ annotations *)
 
@@ -1336,12 +1220,12 @@ Proof.
   apply map_ext. intros [k e]. apply (fold_upd_annot annots k e None).
 Qed.
 
-Theorem roundtrip_annotations_partial lock c annots v :
-  wf_view v = true -> fl_guard v = true ->
+Theorem roundtrip_annotations lock c annots v :
+  wf_view v = true ->
   parse_lockfile (write_bazel v) annots lock c
   = Ok (map (fun ke => (fst ke, set_annot_opt (annot_for annots (fst ke)) (snd ke))) (lock_view lock c v)).
 Proof.
-  intros Hwf Hg. pose proof (roundtrip_partial lock c v Hwf Hg) as H.
+  intros Hwf. pose proof (roundtrip lock c v Hwf) as H.
   unfold parse_lockfile in *. destruct (line_loop (splitlines (write_bazel v)) lock [] [] []) as [ents|x]; [|discriminate].
   injection H as H. rewrite <- apply_annotations_spec, <- H. reflexivity.
 Qed.
@@ -1395,3 +1279,8 @@ Proof.
   rewrite apply_annotations_spec, invert_via_spec, !map_map. cbn [fst].
   rewrite map_ext with (g := fst) by reflexivity. apply dict_of_entries_keys_nodup.
 Qed.
+
+Lemma wheel_label_below_package lock d f :
+  startswith_any (d ++ "/" ++ f) [".."; "./../"] = false ->
+  wheel_label lock d f = Some (l_repo lock ++ "//" ++ l_pkg lock ++ ":" ++ d ++ "/" ++ f).
+Proof. intros H. unfold wheel_label. rewrite H. reflexivity. Qed.
